@@ -463,6 +463,38 @@ def check_bookkeeping(ctx, rep):
 
 
 # ----------------------------------------------------------------------------- V7 capacity
+def check_atom_postcondition(ctx, rep, RULE="V7"):
+    """every non-None return of process_atom_symbol entails capacity(atom) >= 0 on that path, and the atom is created in
+    this invocation (shared with C08: the decoder's totality rests on it)"""
+    P = ctx.fn("selfies.grammar_rules.process_atom_symbol")
+    eng2 = Engine(ctx, Hooks())
+    fr2 = eng2.run_function(P)
+    oks = 0
+    probs = []
+    for st, v in fr2.returns:
+        if isinstance(v, Con) and v.value is None:
+            continue
+        if not (isinstance(v, Tup) and len(v.items) == 2):
+            probs.append("non-None result is not a pair (bond info, atom)")
+            continue
+        atom = v.items[1]
+        cap = ("prop", "bonding_capacity", vkey(atom))
+        if not st.entails(ge(Lin.var(cap), 0)):
+            probs.append("an atom with negative capacity can be returned (e.g. too many explicit H)")
+        else:
+            oks += 1
+        fresh_call = isinstance(atom, Unk) and isinstance(atom.term, tuple) and atom.term[0] == "callres"
+        fresh_obj = isinstance(atom, Obj) and isinstance(atom.oid, tuple) and atom.oid[0] == "new"
+        if not (fresh_call or fresh_obj):
+            probs.append("returned atom is not created by calling the factory in this invocation")
+    if not oks and not probs:
+        probs.append("no successful return path")
+    rep.ob(RULE, not probs, P.node, P, construct="process_atom_symbol result", how="non-None result => capacity(atom) >= 0, atom fresh",
+           witness="; ".join(sorted(set(probs))) or None, nontrivial=True,
+           key="reject-negative/" + ("ok" if not probs else "+".join(sorted(set(p[:30] for p in probs)))))
+
+
+
 def check_capacity(ctx, rep, m):
     getter = ctx.fn("selfies.mol_graph.Atom.bonding_capacity")
     tabf = ctx.fn("selfies.bond_constraints.get_bonding_capacity")
@@ -518,33 +550,7 @@ def check_capacity(ctx, rep, m):
            how="capacity == table(element, charge) - (h_count or 0)", witness="; ".join(sorted(set(probs))) or None,
            nontrivial=True, key="getter/" + ("ok" if not probs else "+".join(sorted(set(p[:30] for p in probs)))))
 
-    # negative capacity rejected: every non-None return of process_atom_symbol entails cap(atom) >= 0
-    P = m["roles"]["process_atom_symbol"]
-    eng2 = Engine(ctx, Hooks())
-    fr2 = eng2.run_function(P)
-    oks = 0
-    probs = []
-    for st, v in fr2.returns:
-        if isinstance(v, Con) and v.value is None:
-            continue
-        if not (isinstance(v, Tup) and len(v.items) == 2):
-            probs.append("non-None result is not a pair (bond info, atom)")
-            continue
-        atom = v.items[1]
-        cap = ("prop", "bonding_capacity", vkey(atom))
-        if not st.entails(ge(Lin.var(cap), 0)):
-            probs.append("an atom with negative capacity can be returned (e.g. too many explicit H)")
-        else:
-            oks += 1
-        fresh_call = isinstance(atom, Unk) and isinstance(atom.term, tuple) and atom.term[0] == "callres"
-        fresh_obj = isinstance(atom, Obj) and isinstance(atom.oid, tuple) and atom.oid[0] == "new"
-        if not (fresh_call or fresh_obj):
-            probs.append("returned atom is not created by calling the factory in this invocation")
-    if not oks and not probs:
-        probs.append("no successful return path")
-    rep.ob("V7", not probs, P.node, P, construct="process_atom_symbol result", how="non-None result => capacity(atom) >= 0, atom fresh",
-           witness="; ".join(sorted(set(probs))) or None, nontrivial=True,
-           key="reject-negative/" + ("ok" if not probs else "+".join(sorted(set(p[:30] for p in probs)))))
+    check_atom_postcondition(ctx, rep, "V7")
 
     # bond order of an atom symbol comes from smiles_to_bond(<bond-prefix group>)
     NC = ctx.fn("selfies.grammar_rules._process_atom_selfies_no_cache")
